@@ -2,6 +2,7 @@
 import io
 
 from beancount import loader
+from beancount.parser import parser as bparser
 from beancount.core import data
 from beancount.core.compare import hash_entry
 
@@ -124,6 +125,20 @@ def print_layer(ctx, lk, conn, entries, options):
         reloaded, errors, _ = loader.load_string(out.getvalue())
         errors = [e for e in errors if 'does not exist' not in str(e.message) and 'inactive account' not in str(e.message).lower()
                   and 'Invalid reference to unknown account' not in str(e.message)]
+        # 1. what was written, before booking: every directive with its postings as printed
+        parsed, perrors, _ = bparser.parse_string(out.getvalue())
+        a0 = [shallow(e) for e in parsed if getattr(e, 'flag', None) != 'P']
+        b0 = [shallow(e) for e in want if getattr(e, 'flag', None) != 'P']
+        if perrors or a0 != b0:
+            ctx.record_violation('print-roundtrip', '%s: %d directives parsed back, %d expected; first difference %r; errors %r' % (
+                text, len(a0), len(b0), next(((x, y) for x, y in zip(a0, b0) if x != y), None),
+                [str(e.message)[:80] for e in perrors[:2]]), payload={'statement': text})
+            continue
+        # 2. the loaded directives, when the printed subset books on its own (a filter can print a sale without the
+        #    purchase it reduces: the loader then rejects the transaction, which says nothing about PRINT)
+        if errors:
+            ctx.count('print-subset-does-not-book')
+            continue
         # padding transactions (flag 'P') are synthesised by the loader from pad directives: not part of the round trip
         a = [norm_entry(e) for e in reloaded if getattr(e, 'flag', None) != 'P']
         b = [norm_entry(e) for e in want if getattr(e, 'flag', None) != 'P']
@@ -132,6 +147,24 @@ def print_layer(ctx, lk, conn, entries, options):
             only_b = [x for x in b if x not in a][:2]
             ctx.record_violation('print-roundtrip', '%s: %d directives reloaded, %d expected; extra %r missing %r errors %r' % (
                 text, len(a), len(b), only_a, only_b, [str(e.message)[:80] for e in errors[:2]]), payload={'statement': text})
+
+
+def shallow(e):
+    """a directive as written: type, date and the fields PRINT writes out; postings with account, flag, units and the cost /
+    price as given (before booking the cost is a specification)"""
+    head = (type(e).__name__, e.date)
+    if not isinstance(e, data.Transaction):
+        return head + tuple(repr(getattr(e, f)) for f in e._fields if f not in ('meta', 'date'))
+
+    def cost_key(c):
+        if c is None:
+            return None
+        number = getattr(c, 'number', None)
+        if number is None:
+            number = getattr(c, 'number_per', None)
+        return (number, c.currency, c.date, c.label)
+    posts = tuple((p.account, p.flag, p.units, cost_key(p.cost), p.price) for p in e.postings)
+    return head + (e.flag, e.payee, e.narration, e.tags, e.links, posts)
 
 
 def run(ctx):
